@@ -155,7 +155,8 @@ class CurvedOps:
     replay_timeout = 1500
     path_timeout = 1500
 
-    def __init__(self, A, B, op, shift=("0", "0"), num="float", invA=False, invB=False, scaleB=1, what="op"):
+    def __init__(self, A, B, op, shift=("0", "0"), num="float", invA=False, invB=False, scaleB=1, what="op", wf=False):
+        self.wf = wf
         self.A, self.B, self.op, self.shift, self.num = A, B, op, [str(s) for s in shift], num
         self.invA, self.invB, self.scaleB, self.what = invA, invB, scaleB, what
         self.names = ["px", "py"]
@@ -180,7 +181,15 @@ class CurvedOps:
         closed = all(C.closed_chain(n[1]) for n in C.nodes_of(reg))
         A2, B2 = build(na, self.invA), build(nb, self.invB)
         kinds = {"R": type(Rs).__name__, "ncurves": len(C.nodes_of(reg)), "npieces": [len(n[1]) for n in C.nodes_of(reg)]}
-        return {"_reg": reg, "closed": closed, "kinds": kinds, "_regA_after": C.region_of_shape(A), "_regB_after": C.region_of_shape(B)}
+        out = {"_reg": reg, "closed": closed, "kinds": kinds, "_regA_after": C.region_of_shape(A), "_regB_after": C.region_of_shape(B)}
+        if self.wf:
+            from checks.c06 import structure
+
+            out["structure"] = structure(Rs)
+            out["inv_kind"] = type(~Rs).__name__
+            tiny = F(1, 10**9)
+            out["zero_piece"] = any(all(abs(q[0] - pc[0][0]) <= tiny and abs(q[1] - pc[0][1]) <= tiny for q in pc) for n in C.nodes_of(reg) for pc in n[1])
+        return out
 
     def desc(self):
         return f"{'~' if self.invA else ''}{self.A} {self.op if self.what == 'op' else 'contains'} {'~' if self.invB else ''}{self.B}*{self.scaleB}+({self.shift[0]}, {self.shift[1]}) [{self.num}]"
@@ -215,7 +224,55 @@ class CurvedOps:
                ("a result curve is not a closed chain", z3.BoolVal(not out["closed"]), {}),
                ("an operand denotes a different region after the operator (curved operands)",
                 z3.And(off, z3.Or(R.z_in(out["_regA_after"], px, py) != R.z_in(ra, px, py), R.z_in(out["_regB_after"], px, py) != R.z_in(rb, px, py))), {})]
+        if self.wf:
+            obs = self.wellformed(out, rr, off, px, py)
         return obs
+
+    # ---- C06: structure of a result with curved sides (query point free)
+    def wf_formulas(self, out, rr, zin, conj, neg, disj, true, false):
+        """(name, formula) pairs built from membership terms zin(node) so that the same code yields z3 formulas and exact truth values"""
+        from checks.c06 import INV_KIND
+
+        kind = {"EmptyShape": "Empty", "WholeShape": "Whole", "SimpleShape": "Simple", "ConnectedShape": "Connected", "DisjointShape": "Disjoint"}[out["kinds"]["R"]]
+        inv = {"EmptyShape": "Empty", "WholeShape": "Whole", "SimpleShape": "Simple", "ConnectedShape": "Connected", "DisjointShape": "Disjoint"}[out["inv_kind"]]
+        st = out["structure"]
+        res = [("chain not closed by shared junction points (curved result)", false if (st["closed_by_identity"] and out["closed"]) else true),
+               ("kind of ~result contradicts the documented table (curved result)", false if inv in INV_KIND[kind] else true),
+               ("zero-length boundary piece (curved result)", true if out["zero_piece"] else false)]
+        if kind == "Simple":
+            res.append(("SimpleShape with several boundaries (curved result)", false if st.get("simple_one_boundary") else true))
+
+        def connected_bad(creg):
+            subs = creg[1]
+            pos = [n for n in subs if n[0] == "curved" and n[2]]
+            hol = [n for n in subs if n[0] == "curved" and not n[2]]
+            bad = [true] if (len(pos) > 1 or len(pos) + len(hol) != len(subs)) else []
+            for h in hol:
+                if pos:
+                    bad.append(conj(neg(zin(h)), neg(zin(pos[0]))))  # a point of the hole's bounded side outside the outer boundary
+                for h2 in hol:
+                    if h2 is not h:
+                        bad.append(conj(neg(zin(h)), neg(zin(h2))))  # two holes overlap
+            return bad
+
+        if kind == "Connected":
+            res.append(("ConnectedShape is not one outer/unbounded region minus separate holes (curved result)", disj(connected_bad(rr))))
+        if kind == "Disjoint":
+            subs = rr[1]
+            bad = [true] if len(subs) < 2 else []
+            for sub in subs:
+                if sub[0] == "and":
+                    bad += connected_bad(sub)
+            for i in range(len(subs)):
+                for j in range(i + 1, len(subs)):
+                    bad.append(conj(zin(subs[i]), zin(subs[j])))
+            res.append(("DisjointShape components overlap or are malformed (curved result)", disj(bad)))
+        return res
+
+    def wellformed(self, out, rr, off, px, py):
+        T, Fl = z3.BoolVal(True), z3.BoolVal(False)
+        fs = self.wf_formulas(out, rr, lambda n: R.z_in(n, px, py), lambda *a: z3.And(*a), z3.Not, lambda xs: z3.Or(xs) if xs else Fl, T, Fl)
+        return [(name, z3.And(off, f) if not (z3.is_true(f) or z3.is_false(f)) else f, {}) for name, f in fs]
 
     def on_raise(self, exc, func, line):
         return f"curved operator raised {exc}"
@@ -256,6 +313,12 @@ class CurvedOps:
         M = C.extent([ra, rb, rr]) + 1
         if name.startswith("a result curve"):
             return not outcome["closed"], f"{self.desc()}: {outcome['kinds']}"
+        if name.endswith("(curved result)"):
+            offp = C.x_off_boundary(p, [ra, rb], EPS, M) and C.x_off_chords(p, [ra, rb, rr, outcome["_regA_after"], outcome["_regB_after"]])
+            fs = dict(self.wf_formulas(outcome, rr, lambda n: R.x_in(n, p), lambda *a: all(a), lambda a: not a, lambda xs: any(xs), True, False))
+            v = fs.get(name, False)
+            structural = name.startswith(("chain not closed", "kind of", "zero-length", "SimpleShape with"))
+            return bool(v and (structural or offp)), f"{self.desc()}: result {outcome['kinds']} structure {outcome['structure']} ~result {outcome['inv_kind']}; p=({p[0]}, {p[1]})"
         off = C.x_off_boundary(p, [ra, rb], EPS, M) and C.x_off_chords(p, [ra, rb, rr, outcome["_regA_after"], outcome["_regB_after"]])
         a, b = R.x_in(ra, p), R.x_in(rb, p)
         if name.startswith("an operand denotes"):
